@@ -185,6 +185,11 @@ class PolyDomain:
     def eq(self, a, b):
         if isinstance(a, bool) or isinstance(b, bool):
             return bool(a) == bool(b)
+        d = a - b
+        if len(d.t) == 1:      # +-(sign atom): s^2 = 1, hence never zero
+            (m, c), = d.t.items()
+            if len(m) == 1 and m[0][1] == 1 and m[0][0] in self.sq_atoms and self.sq_atoms[m[0][0]] == Poly.const(1):
+                return False
         return self._cmp(a, b) == 0
     def ne(self, a, b): return not self.eq(a, b)
     def and_(self, a, b): return bool(a) and bool(b)
@@ -227,6 +232,12 @@ class PolyDomain:
             if not b.t:
                 raise Unsupported("division by the constant zero")
             return a.scale(1 / b.cval())
+        if self._has_inf(b):
+            if len(b.t) == 1 and not self._has_inf(a):
+                (m, c), = b.t.items()
+                if c > 0 and all((P.NAMES[v] == "__INF__" and e > 0) or v in self.pos or v in P.UNITS for v, e in m):
+                    return Poly()          # finite / (+inf) = 0
+            raise Unsupported("division involving +inf")
         if len(b.t) == 1:
             (m, c), = b.t.items()
             r = a.scale(Fraction(1) / c)
@@ -394,6 +405,10 @@ class PolyDomain:
         if a.is_const():
             from .interp import snap
             return Poly.const(snap(math.exp(float(a.cval()))))
+        if self._has_inf(a):
+            if a == self._inf():
+                return self._inf()
+            raise Unsupported("exp of an expression containing +inf")
         # exp(lgamma(n)) = (n-1)!
         if len(a.t) == 1:
             (m, c), = a.t.items()
@@ -414,9 +429,20 @@ class PolyDomain:
                 return Poly.const(Fraction(math.log(float(c))))
         return self.uf("log", (a,))
 
+    def _inf(self):
+        """+infinity as produced by IEEE arithmetic at poles (lgamma(0), exp(inf)); only  finite/inf = 0,
+        exp(inf) = inf and positive multiples are supported"""
+        return Poly.var("__INF__")
+
+    def _has_inf(self, p):
+        v = P.IDS.get("__INF__")
+        return v is not None and v in p.vars()
+
     def lgamma(self, a):
         if a.is_const() and a.cval() in (1, 2):
             return Poly()
+        if a.is_const() and a.cval().denominator == 1 and a.cval() <= 0:
+            return self._inf()
         return self.uf("lgamma", (a,))
 
     def erf_inv(self, a):
@@ -545,6 +571,9 @@ class PolyDomain:
     def solve(self, A, B):
         vec = B.ndim == 1
         B2 = B.reshape(-1, 1) if vec else B
+        if A.shape == (1, 1):
+            X = np.vectorize(lambda b: self.div(b, A[0, 0]), otypes=[object])(B2)
+            return X.reshape(-1) if vec else X
         X, name = self._fresh_mat("S", B2.shape, "solve")
         E = A.dot(X) - B2
         for idx in np.ndindex(*E.shape):
